@@ -14,7 +14,8 @@ SPEC = {
     "floors": {"blocks_tampered:proposed": (100, 1000), "blocks_tampered:empty": (20, 200), "op:TxReceiptsCid/bitflip": 100, "op:TxBloom/bitflip": 100,
                "op:FeePerGas/+1": 100, "op:Proposer/not-an-identity": 100, "op:Proposer/offline-identity": 50, "op:Body/drop-tx/commitment-recomputed": 50,
                "op:Body/drop-tx/commitment-stale": 50, "op:Body/reorder/commitment-stale": 20, "op:Time/beyond-future-offset": 100,
-               "op:Flags/toggle-Snapshot": 100, "op:SeedProof/bitflip": 100},
+               "op:Flags/toggle-Snapshot": 100, "op:SeedProof/bitflip": 100, "op:Time/extreme-max-int64": 100, "op:Header/proposed-plus-junk-empty": 100,
+               "op:Header/empty-plus-junk-proposed": 20, "op:Proposer/formerly-online-now-not-validated": 50},
     "parallel": 16,
     "assumptions": ["consensus config V12"],
 }
